@@ -89,11 +89,28 @@ def b01 (b : Bool) : String := if b then "1" else "0"
 def showMeta (m : Meta) : String :=
   s!"{showTs m.created},{showTs m.modified},{showTs m.expires},{showTs m.deleted},{b01 m.secret},{b01 m.crown}"
 
+/-- An `int64` token (`strconv.ParseInt(v, 10, 64)` on the other side). -/
+def parseInt64 (s : String) : Option Int :=
+  match s.toInt? with
+  | some i => if -9223372036854775808 ≤ i ∧ i ≤ 9223372036854775807 then some i else none
+  | none => none
+
+/-- A float token: thousandths, any number of digits. Integral values of any magnitude below 10^21 (where
+    encoding/json switches to exponent notation); fractional values only below 10^12 (see the number model in
+    `PB.Model.Db`) — everything else is refused (`bad-op`). The value the Go side holds is the nearest float64. -/
+def parseMilli (s : String) : Option Int :=
+  match s.toInt? with
+  | some m =>
+    if m.natAbs ≥ 1000000000000000000000000 then none
+    else if m % 1000 ≠ 0 ∧ m.natAbs ≥ 1000000000000000 then none
+    else some (f64m m)
+  | none => none
+
 def parsePrim (s : String) : Option Prim :=
   match s.toList with
   | 's' :: ':' :: rest => some (.str (String.ofList rest))
-  | 'i' :: ':' :: rest => (String.ofList rest).toInt?.map Prim.int
-  | 'f' :: ':' :: rest => (String.ofList rest).toInt?.map Prim.flt
+  | 'i' :: ':' :: rest => (parseInt64 (String.ofList rest)).map Prim.int
+  | 'f' :: ':' :: rest => (parseMilli (String.ofList rest)).map Prim.flt
   | 'b' :: ':' :: rest => (parseBool (String.ofList rest)).map Prim.bool
   | _ => none
 
@@ -186,11 +203,11 @@ def parseLeaf (op arg : String) : Option Leaf :=
   match op with
   | "eq" | "gt" | "ge" | "lt" | "le" => do
     let c ← parseCmp op
-    let v ← arg.toInt?
+    let v ← parseInt64 arg
     pure (.intCmp c v)
   | "feq" | "fgt" | "fge" | "flt" | "fle" => do
     let c ← parseCmp (String.ofList (op.toList.drop 1))
-    let v ← arg.toInt?
+    let v ← parseMilli arg
     pure (.fltCmp c v)
   | "sa" => some (.strOp .sameAs arg)
   | "co" => some (.strOp .contains arg)
@@ -357,7 +374,7 @@ def keyOps : List String :=
 
 /-- Position of the key / key-prefix token of an op. -/
 def keyPos (op : String) : Option Nat :=
-  if keyOps.contains op || op = "pmput" || op = "query" || op = "purge" then some 2
+  if keyOps.contains op || op = "pmput" || op = "query" || op = "purge" || op = "rtgq" || op = "rtfq" then some 2
   else if op = "sub" then some 3 else none
 
 def handleToks (s : Sys) (toks : List String) : Sys × String :=
@@ -458,6 +475,23 @@ def handleToks (s : Sys) (toks : List String) : Sys × String :=
     (match parseBool sh with
      | some _ => ({ s with inj := true, store := [], sets := [] }, "ok")
      | none => (s, "bad-op"))
+  | ["rtinit", sh, _multi] =>
+    -- the provider registered under several key prefixes (`m2`..`m4`): several providers for the registry, which
+    -- serves a query above them with one goroutine each; routing is by key, so one store models them all
+    (match parseBool sh with
+     | some _ => ({ s with inj := true, store := [], sets := [] }, "ok")
+     | none => (s, "bad-op"))
+  | ["rtgq", id, p, _seed] =>
+    -- a query on the runtime database with the provider goroutines under a seeded scheduler: whatever the
+    -- interleaving, the records listed are those of the sequential filter (`registry_query_concurrent_permitted`)
+    (match s.inj, parseQuery p "-" with
+     | true, some q => s.exec id (.query q)
+     | _, _ => (s, "bad-op"))
+  | ["rtfq", id, p, _n] =>
+    -- the same query n times, free running: every repetition lists the same records
+    (match s.inj, parseQuery p "-" with
+     | true, some q => s.exec id (.query q)
+     | _, _ => (s, "bad-op"))
   | ["rtsets"] =>
     -- what the provider's `Set` received since the last `rtsets`, in order
     ({ s with sets := [] }, showRecs s.sets)
@@ -493,6 +527,10 @@ def handleToks (s : Sys) (toks : List String) : Sys × String :=
     (match parseRec k f m p with
      | some r => ({ s with store := s.store.put r }, "ok")
      | none => (s, "bad-op"))
+  | ["apivia", _] =>
+    -- which constructor of a DatabaseAPI serves the `api` operations that follow (Handle / real websocket):
+    -- every one of them opens its interface with the options of `@api` (theorem `api_constructors_unprivileged`)
+    (s, "ok")
   | ["api", "get", k] =>
     (match s.iface "@api" with
      | some i =>
@@ -509,6 +547,23 @@ def handleToks (s : Sys) (toks : List String) : Sys × String :=
           (s, (if l.isEmpty then "ok 0" else s!"ok {l.length} " ++ " ".intercalate l) ++ " err=nil")
         | o => (s, showOut o))
      | _, _ => (s, "bad-op"))
+  | ["api", "sub", sid, p] =>
+    -- a subscription through the database API: the API's interface subscribes (neither local nor internal)
+    (match s.iface "@api", parseQuery p "-" with
+     | some i, some q => ({ s with subs := s.subs ++ [{ id := sid, loc := i.opts.loc, int := i.opts.int, q := q }] }, "ok")
+     | _, _ => (s, "bad-op"))
+  | ["api", "feed", sid, _sentinel] =>
+    -- `processSub`: a record marked deleted is announced as `del`, one the API cannot render as a JSON object
+    -- (RAW data, no data) only gives a warning, everything else is sent as `upd` / `new` with its data
+    (match s.subs.find? (·.id == sid) with
+     | some sb =>
+       let items := sb.feed.filterMap (fun r =>
+         if r.md.isDeleted then some s!"del:{encKey r.key}"
+         else if r.form == .raw || r.fields.isEmpty then none
+         else some ("upd:" ++ showRecNoMeta r))
+       ({ s with subs := s.subs.map (fun x => if x.id == sid then { x with feed := [] } else x) },
+        if items.isEmpty then "ok 0" else s!"ok {items.length} " ++ " ".intercalate items)
+     | none => (s, "bad-op"))
   | ["api", "create", k, p] =>
     (match parseRec k "J" "0,0,0,0,0,0" p with | some r => s.exec "@api" (.putNew r) | none => (s, "bad-op"))
   | ["api", "update", k, p] =>
@@ -518,7 +573,7 @@ def handleToks (s : Sys) (toks : List String) : Sys × String :=
     -- handleInsert: Get, accessor Set (JSON numbers arrive as float64), Put
     (match s.iface "@api", parsePrim p with
      | some i, some pv =>
-       let pv := match pv with | .int n => Prim.flt (n * 1000) | x => x
+       let pv := match pv with | .int n => Prim.flt (f64m (n * 1000)) | x => x
        (match (getRecord s.cfg i.opts { store := s.store } k s.now).1 with
         | .error e => (s, errStr e)
         | .ok r =>
